@@ -73,3 +73,33 @@ def dec_from(acc, tail, expected):
     if len(acc) > 0 and acc[-1][0] == k:
         return dec_from(acc[:-1] + [[k, acc[-1][1] + v]], rest, expected)
     return dec_from(acc + [[k, v]], rest, expected)
+
+
+# ---------------------------------------------------------------------------------------
+# round trip (lemmas/tlv.py): the encoding read front to back, the item list as the reader returns it, and the two
+# conditions under which a list of items is representable (types are bytes; equal-typed neighbours are ONE item on
+# the wire, so a representable list has none)
+
+
+@spec(args=[Items, Int], ret=Bytes, fuel=1)
+def enc_from(d, i):
+    """canonical encoding of the items from index i on"""
+    if i < 0 or i >= len(d):
+        return b""
+    return frags(d[i][0], d[i][1]) + enc_from(d, i + 1)
+
+
+@spec(args=[Items, Int], ret=DItems, fuel=1)
+def as_read(d, n):
+    """the first n items as decode returns them: [type, value] two-element lists"""
+    if n <= 0:
+        return []
+    return as_read(d, n - 1) + [[d[n - 1][0], d[n - 1][1]]]
+
+
+@spec(args=[Items, Int], ret=Bool, fuel=1)
+def representable(d, i):
+    """from index i on: every type is a byte and no two neighbours have the same type"""
+    if i < 0 or i >= len(d):
+        return True
+    return 0 <= d[i][0] <= 255 and (i + 1 >= len(d) or d[i][0] != d[i + 1][0]) and representable(d, i + 1)
